@@ -62,6 +62,14 @@ func H_c02_refdef() {
 	if tr == 2 {
 		md = append(md, x)
 	}
+	// cont: paragraph text directly behind the definition (no blank line), indented by nothing, 1, 3 or 4 spaces
+	// or a tab: the definition is removed and the text is a paragraph of its own, leading whitespace stripped
+	cont := vp.ParamInt("cont", 0)
+	if cont > 0 && tr == 0 {
+		md = append(md, '\n')
+		md = append(md, []string{"", "", " ", "   ", "    ", "\t"}[cont]...)
+		md = append(md, x, x)
+	}
 	md = append(md, "\n\n["...)
 	md = append(md, l1, l2, ']', '\n')
 
@@ -78,7 +86,11 @@ func H_c02_refdef() {
 	switch {
 	case tr != 2:
 		// nothing but whitespace behind the last element: a definition, with the title if one was written
-		want = link(sep != 0)
+		if cont > 0 && tr == 0 {
+			want = append(want, '<', 'p', '>', x, x)
+			want = append(want, "</p>\n"...)
+		}
+		want = append(want, link(sep != 0)...)
 	case sep >= 2:
 		// title candidate on its own line but followed by text: definition without title, then a paragraph
 		want = append(want, "<p>"...)
@@ -122,3 +134,118 @@ func H_c02_refdef() {
 }
 
 func init() { reg("H_c02_refdef", H_c02_refdef) }
+
+// ---------------------------------------------------------------------------------------------
+// C02 part A''': HTML blocks (CommonMark 4.6). The seven start conditions and their end conditions
+// are enumerated by the driver; the letter case of every tag-name letter is a symbolic bit (the
+// conditions are case-insensitive), content letters are symbolic. Layout:
+//
+//	IND open-line / *x* / end-line / [blank] / *y*
+//
+// Expected (unsafe mode): the block's lines verbatim up to and including the line that meets the end
+// condition (types 1-5) or up to the blank line (types 6, 7), then the emphasis paragraph.
+// ---------------------------------------------------------------------------------------------
+
+var c02Type1 = []string{"pre", "script", "style", "textarea"}
+var c02Type6 = []string{"div", "p", "table", "h1", "ul", "li", "blockquote", "address", "details", "option", "tr", "section"}
+
+func H_c02_html() {
+	m := WarmMD("core||unsafe,xhtml")
+	kind := vp.ParamInt("kind", 1)
+	ind := vp.ParamInt("ind", 0)
+	t1, t2 := vp.ParamInt("t1", 0), vp.ParamInt("t2", 0)
+	oneLine := vp.ParamInt("oneline", 0) == 1
+	letter := func() byte {
+		b := vp.Byte("t")
+		vp.Assume(vp.InRange(b, 'a', 'z'))
+		return b
+	}
+	// the case of the first, middle and last letter of a tag name is symbolic (the matcher forks per letter, so
+	// all letters would be 2^len paths); the other letters are lower case, or upper case with upper=1
+	upper := vp.ParamInt("upper", 0) == 1
+	anycase := func(name string) []byte {
+		out := make([]byte, len(name))
+		for i := 0; i < len(name); i++ {
+			lo := name[i]
+			if lo < 'a' || lo > 'z' {
+				out[i] = lo
+				continue
+			}
+			if i == 0 || i == len(name)/2 || i == len(name)-1 {
+				c := vp.Byte("case")
+				vp.Assume(vp.Or(c == lo, c == lo-32))
+				out[i] = c
+			} else if upper {
+				out[i] = lo - 32
+			} else {
+				out[i] = lo
+			}
+		}
+		return out
+	}
+	x, y := letter(), letter()
+	var open, end []byte
+	blankEnds := false
+	switch kind {
+	case 1:
+		open = append(append([]byte("<"), anycase(c02Type1[t1])...), '>')
+		end = append(append([]byte("</"), anycase(c02Type1[t2])...), '>')
+	case 2:
+		open, end = []byte("<!--"), []byte("-->")
+	case 3:
+		open, end = []byte("<?"), []byte("?>")
+	case 4:
+		open, end = append([]byte("<!"), letter()-32), []byte(">")
+	case 5:
+		open, end = []byte("<![CDATA["), []byte("]]>")
+	case 6:
+		open = append(append([]byte("<"), anycase(c02Type6[t1])...), '>')
+		end = append(append([]byte("</"), anycase(c02Type6[t1])...), '>')
+		blankEnds = true
+	case 7:
+		open = append(append([]byte("</"), anycase(c02Type6[t1])...), '>')
+		end = []byte("<br/>")
+		blankEnds = true
+	case 8: // type 7: a complete tag of an unknown name alone on its line
+		open = []byte{'<', letter(), letter(), letter(), 'q', '>'}
+		end = []byte("</q>")
+		blankEnds = true
+	}
+	var md, want []byte
+	for i := 0; i < ind; i++ {
+		md = append(md, ' ')
+	}
+	md = append(md, open...)
+	if oneLine {
+		// end condition met on the first line (types 1-5): the block is that line
+		md = append(md, '*', x, '*')
+		md = append(md, end...)
+		md = append(md, " z\n"...)
+	} else {
+		md = append(md, '\n', '*', x, '*', '\n')
+		md = append(md, end...)
+		md = append(md, " z\n"...)
+	}
+	if blankEnds {
+		// more raw text behind the would-be end line, then the blank line that really ends the block
+		md = append(md, '*', x, '*', '\n')
+	}
+	want = append(want, md...)
+	if blankEnds {
+		md = append(md, '\n')
+	}
+	md = append(md, '*', y, '*', '\n')
+	want = append(want, "<p><em>"...)
+	want = append(want, y)
+	want = append(want, "</em></p>\n"...)
+	vp.Observe("src", md)
+	vp.Observe("want", want)
+	var o bytes.Buffer
+	e := m.Convert(md, &o)
+	vp.Assert(e == nil, "conversion returned an error")
+	vp.Observe("got", o.Bytes())
+	vp.Assert(vp.EqBytes(normHTML(o.Bytes()), normHTML(want)), "HTML block: start/end condition not applied as CommonMark 4.6 prescribes")
+	vp.Reach("done")
+}
+
+func init() { reg("H_c02_html", H_c02_html) }
